@@ -45,7 +45,7 @@ func (p c17Peer) subscribedRunPod() bool {
 
 var (
 	c17Names   = []string{"", "a", "good-name", "with/slash", "dash-dash-dash", "ünï-côdé", strings.Repeat("n", 300), " ", "00-looks-like-index"}
-	c17Indices = []string{"", "0", "9", "00", "07", "42", "99", "100", "000", "a1", "1a", "-1", "+1", " 1", "1 ", "１２", "٣٤", "0x", "\x001", "1\n"}
+	c17Indices = []string{"", "0", "9", "00", "07", "42", "99", "100", "000", "a1", "1a", "-1", "+1", " 1", "1 ", "１２", "٣٤", "0x", "\x001", "1\n", "05-", "05-x", "00-01", "99-99-", "7-7", "12 "}
 )
 
 func c17Cases(tier string, g *rand.Rand) [][]c17Peer {
@@ -75,7 +75,7 @@ func c17Cases(tier string, g *rand.Rand) [][]c17Peer {
 		}
 		one(c17Peer{Name: "p", Idx: fmt.Sprintf("%02d", g.IntN(100)), Mask: m})
 	}
-	stalls := []string{"no-register", "no-configure-answer", "drop-after-connect", "drop-after-register", "drop-in-configure"}
+	stalls := []string{"no-register", "no-configure-answer", "drop-after-connect", "drop-after-register", "drop-in-configure", "unread-flood-register"}
 	for _, s := range stalls {
 		one(c17Peer{Name: "p", Idx: "30", Mask: 0, Stall: s})
 	}
@@ -91,7 +91,7 @@ func c17Cases(tier string, g *rand.Rand) [][]c17Peer {
 				p.Mask = int32(g.Uint32())
 			case 1:
 				p.Stall = stalls[g.IntN(len(stalls))]
-				if strings.HasPrefix(p.Stall, "no-") {
+				if strings.HasPrefix(p.Stall, "no-") || strings.HasPrefix(p.Stall, "unread-") {
 					silent++
 					if silent > 3 {
 						p.Stall = "drop-after-connect"
@@ -121,6 +121,7 @@ func runC17Case(dir string, peers []c17Peer, tag string, res *ev.Result) {
 		res.Note("runtime: %v", err)
 		return
 	}
+	rt.UpdateFn = func(_ context.Context, u []*api.ContainerUpdate) ([]*api.ContainerUpdate, error) { return u, nil }
 	if err := rt.Start(); err != nil {
 		res.Note("start: %v", err)
 		return
@@ -168,6 +169,32 @@ func runC17Case(dir string, peers []c17Peer, tag string, res *ev.Result) {
 				r.raw = rig.NewRawPlugin(spec.Name, spec.Idx, spec.Mask)
 				r.raw.Attach(c)
 			}
+		case "unread-flood-register":
+			// the peer stops reading its socket, fills it with large replies to its own update requests, and
+			// only then registers: the runtime cannot even send its configuration request
+			rp := rig.NewRawPlugin(spec.Name, spec.Idx, spec.Mask)
+			r.raw = rp
+			var cut *rig.CutConn
+			if err := rp.Dial(rt.Sock, func(c net.Conn) net.Conn { cut = rig.NewCutConn(c); return cut }); err != nil {
+				res.Note("%s: dial: %v", tag, err)
+				return
+			}
+			cut.StallReads()
+			for k := 0; k < 6; k++ {
+				go func(k int) {
+					ctx, cancel := context.WithTimeout(context.Background(), 3*time.Second)
+					defer cancel()
+					u := &api.ContainerUpdate{ContainerId: fmt.Sprintf("%s-flood%d", tag, k)}
+					u.AddLinuxUnified("pad", strings.Repeat("f", 300<<10))
+					rp.Runtime.UpdateContainers(ctx, &api.UpdateContainersRequest{Update: []*api.ContainerUpdate{u}})
+				}(k)
+			}
+			time.Sleep(150 * time.Millisecond)
+			wg.Add(1)
+			go func() {
+				defer wg.Done()
+				rp.Register(3 * time.Second)
+			}()
 		default:
 			rp := rig.NewRawPlugin(spec.Name, spec.Idx, spec.Mask)
 			r.raw = rp
@@ -207,7 +234,7 @@ func runC17Case(dir string, peers []c17Peer, tag string, res *ev.Result) {
 	good = rig.NewPlugin("good", "50", 0, rig.Handlers{Any: func(e api.Event, pod *api.PodSandbox, _ *api.Container) { goodEvents.Store(pod.GetId(), true) }})
 	silent := 0
 	for _, p := range peers {
-		if strings.HasPrefix(p.Stall, "no-") {
+		if strings.HasPrefix(p.Stall, "no-") || strings.HasPrefix(p.Stall, "unread-") {
 			silent++
 		}
 	}
@@ -385,6 +412,9 @@ func runC17(c *ev.ChildEnv, res *ev.Result) {
 		go func() {
 			defer wg.Done()
 			defer func() { <-sem }()
+			if res.HangCount() >= 3 {
+				return
+			}
 			tag := fmt.Sprintf("c17b%dc%d", c.Batch, i)
 			dir := filepath.Join(c.Dir, fmt.Sprintf("c%d", i))
 			mkdirAll(dir)
